@@ -7,7 +7,11 @@ use std::path::{Path, PathBuf};
 use std::process::{Child, Command, Stdio};
 use std::time::{Duration, Instant};
 
-pub const VERIF: &str = "/verif";
+/// Root of the verification tree: `/verif`, or `$VERIF_ROOT` when a snapshot of it
+/// is run elsewhere (`vp run`).
+pub fn verif_root() -> String {
+    std::env::var("VERIF_ROOT").unwrap_or_else(|_| "/verif".to_string())
+}
 
 #[derive(Clone, Debug, Serialize, Deserialize)]
 pub struct KnownFinding {
@@ -26,7 +30,7 @@ pub struct KnownFinding {
 }
 
 pub fn load_known() -> Vec<KnownFinding> {
-    let p = Path::new(VERIF).join("known_findings.json");
+    let p = Path::new(&verif_root()).join("known_findings.json");
     match std::fs::read(&p) {
         Ok(b) => serde_json::from_slice(&b).expect("known_findings.json must parse"),
         Err(_) => vec![],
@@ -84,14 +88,14 @@ struct Merged {
 }
 
 fn run_dir(prop: &str, thorough: bool) -> PathBuf {
-    let d = Path::new(VERIF).join("target").join("run").join(format!("{}-{}", prop, if thorough { "thorough" } else { "quick" }));
+    let d = Path::new(&verif_root()).join("target").join("run").join(format!("{}-{}", prop, if thorough { "thorough" } else { "quick" }));
     let _ = std::fs::remove_dir_all(&d);
     std::fs::create_dir_all(&d).expect("create run dir");
     d
 }
 
 fn save_replay(prop: &str, f: &Found) -> PathBuf {
-    let dir = Path::new(VERIF).join("replays");
+    let dir = Path::new(&verif_root()).join("replays");
     std::fs::create_dir_all(&dir).ok();
     let body = serde_json::to_vec_pretty(f).unwrap();
     let mut h = std::collections::hash_map::DefaultHasher::new();
@@ -120,7 +124,7 @@ pub fn run(a: &RunArgs) -> i32 {
 
     // ---- replay tier: committed regression cases and known findings ----------
     let mut replayed = 0u64;
-    let regress = Path::new(VERIF).join("regress");
+    let regress = Path::new(&verif_root()).join("regress");
     let mut files: Vec<PathBuf> = std::fs::read_dir(&regress).map(|rd| rd.filter_map(|e| e.ok().map(|e| e.path())).filter(|p| p.extension().map_or(false, |x| x == "json")).collect()).unwrap_or_default();
     files.sort();
     for f in files {
@@ -144,7 +148,7 @@ pub fn run(a: &RunArgs) -> i32 {
                 let failing = code == Some(1) || code.is_none();
                 if failing {
                     let msg = if code.is_none() { format!("process died with {:?} replaying {}", o.status, f.display()) } else { text.clone() };
-                    let rel = f.strip_prefix(VERIF).map(|p| p.to_string_lossy().to_string()).unwrap_or_default();
+                    let rel = f.strip_prefix(verif_root()).map(|p| p.to_string_lossy().to_string()).unwrap_or_default();
                     if let Some(k) = known.iter().find(|k| k.status == "open" && k.replay.as_deref() == Some(rel.as_str())) {
                         known_lines.insert(format!("KNOWN-FINDING: property={} {} [{}]", a.prop, k.what, k.tag));
                     } else if let Some(k) = matches_known(&known, &a.prop, &msg) {
@@ -393,7 +397,7 @@ pub fn run(a: &RunArgs) -> i32 {
         "wall_s": (t0.elapsed().as_secs_f64() * 100.0).round() / 100.0,
         "violations": violations_total,
     });
-    let evdir = Path::new(VERIF).join("evidence");
+    let evdir = Path::new(&verif_root()).join("evidence");
     std::fs::create_dir_all(&evdir).ok();
     std::fs::write(evdir.join(format!("{}.json", a.prop)), serde_json::to_vec_pretty(&ev).unwrap()).expect("write evidence");
 
@@ -450,8 +454,8 @@ fn run_fuzz(a: &RunArgs, pl: &EnginePlan, dir: &Path) -> Merged {
         "C14" => vec!["fz_sketch", "fz_seq"],
         _ => vec!["fz_seq"],
     };
-    let harness = Path::new(VERIF).join("harness");
-    let tdir = Path::new(VERIF).join("target").join("fuzz");
+    let harness = Path::new(&verif_root()).join("harness");
+    let tdir = Path::new(&verif_root()).join("target").join("fuzz");
     let envs = [("CARGO_NET_OFFLINE", "true"), ("RUSTFLAGS", "--cfg mini_moka_verif"), ("CARGO_TARGET_DIR", tdir.to_str().unwrap())];
     for t in &targets {
         let out = Command::new("cargo").args(["+nightly", "fuzz", "build", t]).current_dir(&harness).envs(envs.iter().cloned()).stdout(Stdio::piped()).stderr(Stdio::piped()).output();
@@ -470,7 +474,7 @@ fn run_fuzz(a: &RunArgs, pl: &EnginePlan, dir: &Path) -> Merged {
     }
     let fdir = dir.join("fuzz");
     std::fs::create_dir_all(&fdir).ok();
-    let before: BTreeSet<PathBuf> = std::fs::read_dir(Path::new(VERIF).join("replays")).map(|rd| rd.filter_map(|e| e.ok().map(|e| e.path())).collect()).unwrap_or_default();
+    let before: BTreeSet<PathBuf> = std::fs::read_dir(Path::new(&verif_root()).join("replays")).map(|rd| rd.filter_map(|e| e.ok().map(|e| e.path())).collect()).unwrap_or_default();
     let mut children: Vec<(String, u64, Child)> = Vec::new();
     let per_target = (pl.workers as usize / targets.len()).max(1);
     let mut widx = 0u64;
@@ -551,7 +555,7 @@ fn run_fuzz(a: &RunArgs, pl: &EnginePlan, dir: &Path) -> Merged {
         }
     }
     // replay files written by the targets' oracles
-    let after: BTreeSet<PathBuf> = std::fs::read_dir(Path::new(VERIF).join("replays")).map(|rd| rd.filter_map(|e| e.ok().map(|e| e.path())).collect()).unwrap_or_default();
+    let after: BTreeSet<PathBuf> = std::fs::read_dir(Path::new(&verif_root()).join("replays")).map(|rd| rd.filter_map(|e| e.ok().map(|e| e.path())).collect()).unwrap_or_default();
     for p in after.difference(&before) {
         if p.file_name().and_then(|n| n.to_str()).map_or(false, |n| n.starts_with(&format!("{}-fuzz-", a.prop))) {
             if let Some(f) = std::fs::read(p).ok().and_then(|b| serde_json::from_slice::<Found>(&b).ok()) {
